@@ -1,7 +1,32 @@
-(* Entry point of the extracted model for property C14: run_C14 case = observation. *)
+(* Entry point of the extracted model for property C14.
+   cases: (1 bytes offset)   parseDescriptors with the iterator at offset: (descriptors, offset afterwards)
+          (2 descriptors)    writeDescriptorsWithLength: (bytes, written)
+          (3 descriptors)    ((calcDescriptorLength d ...) calcDescriptorsLength)
+          (4 descriptors)    writeDescriptors: (bytes, written)
+          (5 descriptor)     writeDescriptor: (bytes, written) *)
 From Coq Require Import ZArith List.
-Require Import Base.Tok Base.Iter Extract.RunBase.
+Require Import Base.Tok Base.Iter Base.Wr Gen.Types Model.Desc Extract.RunBase.
 Import ListNotations.
 Open Scope Z_scope.
 
-Definition run_C14 (t : tok) : tok := TL [].
+Definition descs_of_tok (t : tok) : list Descriptor := to_list Descriptor_of_tok t.
+
+Definition tok_written (n : Z) (its : list witem) : tok := TL [TB (bytes_of_items its); TI n].
+
+Definition run_C14 (t : tok) : tok :=
+  match tI (tnth 0 t) with
+  | 1 => match parse_descriptors (mk_iter (tB (tnth 1 t)) (tI (tnth 2 t))) with
+         | Ok (ds, i) => TL [TI 0; TL [of_list tok_of_Descriptor ds; TI (ioff i)]]
+         | Err c => TL [TI 1; TI c]
+         | Panic => TL [TI 2]
+         end
+  | 2 => let ds := descs_of_tok (tnth 1 t) in
+         tok_of_res (tok_written (descriptors_written ds + 2)) (enc_descriptors_with_length ds)
+  | 3 => let ds := descs_of_tok (tnth 1 t) in
+         TL [of_list TI (map calc_descriptor_length ds); TI (calc_descriptors_length ds)]
+  | 4 => let ds := descs_of_tok (tnth 1 t) in
+         tok_of_res (tok_written (descriptors_written ds)) (enc_descriptors ds)
+  | 5 => let d := Descriptor_of_tok (tnth 1 t) in
+         tok_of_res (tok_written (descriptor_written d)) (enc_descriptor d)
+  | _ => TL []
+  end.
